@@ -32,7 +32,7 @@ CLAIMED = {
     "C11": dict(level="exploration", ref="DESIGN.md §4 C11",
         technique="deterministic simulation: tie-order seam x heap-content seam, numpy itself as the oracle on the raw arrays",
         text="For 82 mirrored functions with argument generators (a systematic function x operand-kind sweep first), numeric arrays with many repeated values are wrapped as constant polynomials (plain, with unused names, with retained zero terms) and the numpoly result (numpoly and numpy-dispatch spellings) is compared with numpy's on the raw arrays under (tie policy, heap fill) environments; argmax/argmin ties, amax/amin along axes and every allocation-dependent result must agree with numpy and be identical across environments; non-constant divisors must raise FeatureNotSupported. Spellings: numpoly, numpy dispatch, and the method form for the functions the library's own tests exercise as methods. History: option prelude, the same call earlier on narrower dtypes / with an equal number spelled differently / with more keywords, an interrupted earlier call, query-update-query on one object, the polynomial as its own out=. Inputs also as transposed views, read-only storage, aliased operands, narrow and large-valued data, infinities in comparison functions and isclose, order= arguments (the numpy reference gets the same memory layout); a share of runs under errstate(invalid/divide=raise) and in python -O.",
-        note="Only 'numpy returns => numpoly returns the same' is asserted. Text functions, savetxt and copyto are not compared (C16/C13/output target). numpy.det is compared with an absolute tolerance (floating-point LU vs exact expansion). Four genuine defects are listed in known_findings.json. bool and NaN data are outside the quantifier (numpoly differs from numpy there; DESIGN 10)."),
+        note="Only 'numpy returns => numpoly returns the same' is asserted. Text functions, savetxt and copyto are not compared (C16/C13/output target). Functions numpoly evaluates in another operation order than numpy (det, matmul, inner, prod, sums on other layouts) are compared with a tolerance scaled by the operand magnitude. Five genuine defects are listed in known_findings.json. bool and NaN data are outside the quantifier (numpoly differs from numpy there; DESIGN 10)."),
 
     "C12": dict(level="exploration", ref="DESIGN.md §4 C12",
         technique="deterministic simulation: heap-content seam (fill patterns incl. stale numpoly bytes, red zones) with numpy casts/promotion on plain arrays as the oracle",
